@@ -65,7 +65,7 @@ def run(ctx):
     for m in ("determine_threshold_quantile", "determine_threshold_entropy"):
         g = ctx.fn(f"{INS}.{m}")
         rr = [n for n in walk_no_nested(g.node) if isinstance(n, ast.Return)]
-        ctx.ob("R-SIB", "C17.1", g, "threshold method returns an integer index", len(rr) == 1 and _ms("return int($$k)", rr[0]) is not None, f"`{src(rr[0]) if rr else None}`")
+        ctx.ob("R-SIB", "C17.1", g, "threshold method returns an integer index", len(rr) == 1 and _ms("return int($k)", rr[0]) is not None, f"`{src(rr[0]) if rr else None}`")
     ctx.floor("C17.1", 6)
 
     # ---- C17.2 clamps ---------------------------------------------------------
@@ -137,12 +137,17 @@ def run(ctx):
     # ---- C17.3 training floor ----------------------------------------------------
     g = ctx.fn(INS + ".add_new_proposal")
     from ..pat import find_stmt as _fs
-    want = ("$$k = min(argmax(self.training_samples.samples['logL'] >= self.log_likelihood_threshold), self.training_samples.samples.size - self.min_samples)",
-            "$$k = min(self.training_samples.samples.size - self.min_samples, argmax(self.training_samples.samples['logL'] >= self.log_likelihood_threshold))")
-    nt = [b for n_, b in _fs(want[0], g.node)]  # `min` is commutative: the canonicaliser sorts its arguments
-    ctx.ob("R-SIB", "C17.3", g, "training starts at min(first sample at/above the threshold, size - min_samples): at least min_samples are used", len(nt) == 1, "")
-    oksl = len(nt) == 1 and len(_fs("self.current_training_samples = self.training_samples.samples[$$k:].copy()", g.node, nt[0])) == 1 and len(_fs("self.current_training_log_q = self.training_samples.log_q[$$k:, :].copy()", g.node, nt[0])) == 1
-    ctx.ob("R-SIB", "C17.3", g, "training samples and their density rows are the same tail slice [n_train:]", oksl, "")
+    # read off the two slices with single-assignment locals inlined: the start index may or may not live in a local
+    from ..pat import match_expr as _mx2
+
+    START = "min(argmax(self.training_samples.samples['logL'] >= self.log_likelihood_threshold), self.training_samples.samples.size - self.min_samples)"
+    inl_g = single_assignments(g.node)
+    s_st = [b_["v"] for n_, b_ in _fs("self.current_training_samples = $v", g.node)]
+    q_st = [b_["v"] for n_, b_ in _fs("self.current_training_log_q = $v", g.node)]
+    oks_ = len(s_st) == 1 and _mx2(f"self.training_samples.samples[{START}:].copy()", s_st[0], inline=inl_g) is not None
+    okq_ = len(q_st) == 1 and _mx2(f"self.training_samples.log_q[{START}:, :].copy()", q_st[0], inline=inl_g) is not None
+    ctx.ob("R-SIB", "C17.3", g, "training starts at min(first sample at/above the threshold, size - min_samples): at least min_samples are used", oks_, f"`{src(s_st[0])[:120] if s_st else None}`")
+    ctx.ob("R-SIB", "C17.3", g, "training samples and their density rows are the same tail slice [n_train:]", oks_ and okq_, f"`{src(q_st[0])[:120] if q_st else None}`")
     tr = [c for c in walk_no_nested(g.node) if isinstance(c, ast.Call) and call_name(c) == "self.proposal.train"]
     ctx.ob("R-SIB", "C17.3", g, "the proposal is trained on exactly that slice", len(tr) == 1 and src(tr[0].args[0]) == "self.current_training_samples", "")
     ctx.floor("C17.3", 3)
@@ -159,12 +164,14 @@ def run(ctx):
     # supports of the reviewed reasons
     ge = ctx.fn(INS + ".determine_threshold_entropy")
     norm = _fs("$$c /= $$c[-1]", ge.node)
-    am = _fs("$$k = argmax($$c >= q)", ge.node, norm[0][1] if norm else None)
+    from ..pat import find_expr as _fe
+
+    am = _fe("argmax($$c >= q)", ge.node, norm[0][1] if norm else None)
     ctx.ob("R-ARGMAX", "C17.4", ge, "entropy method: the CDF is normalised by its last element before the first-true search", len(norm) == 1 and len(am) == 1 and norm[0][0].lineno < am[0][0].lineno, "")
     gq = ctx.fn(INS + ".determine_threshold_quantile")
     aq = _fs(f"$$a = {gq.params()[1]}['logL']", gq.node)
     cq_ = _fs("$$c = weighted_quantile($$a, q, log_weights=$$w, values_sorted=True)", gq.node, aq[0][1] if aq else None)
-    okq = len(aq) == 1 and len(cq_) == 1 and len(_fs("$$k = argmax($$a >= $$c)", gq.node, cq_[0][1])) == 1
+    okq = len(aq) == 1 and len(cq_) == 1 and len(_fe("argmax($$a >= $$c)", gq.node, cq_[0][1])) == 1
     ctx.ob("R-ARGMAX", "C17.4", gq, "quantile method: the cut-off is a weighted quantile of the same likelihood array that is searched", okq, "")
     ctx.floor("C17.4", 5)
 
